@@ -1,5 +1,6 @@
 SPECIFICATION Spec
 CONSTANT Dev = "mul_any_operands"
 INVARIANT FusionSound
+INVARIANT LpNormSound
 INVARIANT DigitizeLaws
 CHECK_DEADLOCK FALSE
